@@ -732,6 +732,56 @@ def rd_fields(b):
     return out
 
 
+def rd_fields_partial(b):
+    """the fields that parse before the first malformed one"""
+    lo, hi = 0, len(b)
+    best = []
+    # longest prefix ending at a field boundary: extend field by field
+    i = 0
+    while i < len(b):
+        ok = None
+        for j in range(i + 1, min(len(b), i + 12 + (1 << 20)) + 1):
+            f = rd_fields(b[i:j])
+            if f is not None and len(f) == 1:
+                ok = (f[0], j)
+                break
+            if j - i > 11 and f is None:
+                # need the payload: read the length and jump
+                f2 = None
+                k = i
+                key = 0
+                sh = 0
+                while k < len(b) and k - i < 10:
+                    c = b[k]
+                    key |= (c & 0x7f) << sh
+                    sh += 7
+                    k += 1
+                    if c < 0x80:
+                        break
+                if key & 7 == 2:
+                    ln = 0
+                    sh = 0
+                    k2 = k
+                    while k2 < len(b) and k2 - k < 10:
+                        c = b[k2]
+                        ln |= (c & 0x7f) << sh
+                        sh += 7
+                        k2 += 1
+                        if c < 0x80:
+                            break
+                    j2 = k2 + ln
+                    if j2 <= len(b):
+                        f2 = rd_fields(b[i:j2])
+                        if f2 is not None and len(f2) == 1:
+                            ok = (f2[0], j2)
+                break
+        if ok is None:
+            break
+        best.append(ok[0])
+        i = ok[1]
+    return best
+
+
 def packed_ok(b):
     i = 0
     while i < len(b):
@@ -767,7 +817,8 @@ def lazy_tail(data):
                 continue
             bf = rd_fields(blob)
             if bf is None:
-                return False
+                # decode_blob returns at the first `raw` field; the model parses all fields of the Blob first
+                return any(t == 1 and w == 2 for t, w, _ in rd_fields_partial(blob))
             for t, w, raw in bf:
                 if t == 1 and w == 2:
                     blk = rd_fields(raw) or []
@@ -891,6 +942,6 @@ def run_part(ctx):
         return model_classes(ctx, datas, [modelled.get(d, True) for d in datas])
 
     def outside(d, mod, cls, out):
-        return 'lazy-packed-tail' if mod == 'err' and cls == 'ok' and lazy_tail(d) else None
+        return 'lazy-decoding' if mod == 'err' and cls == 'ok' and lazy_tail(d) else None
 
     hostile_run(ctx, 'pbf', 'pbf', builds, inputs, model_fn, types=7, probes=probes, comp_sample=40 if quick else 400, outside_model=outside)
